@@ -154,6 +154,19 @@ impl Ref {
                 }
                 s
             }
+            Body::Edges(base, es) => {
+                let mut s = *base;
+                for (g, d) in es {
+                    let on = match g {
+                        Some(g) => self.inputs[*g as usize]? != 0,
+                        None => true,
+                    };
+                    if on {
+                        s = (s + self.dep(p, *d)?) % 5;
+                    }
+                }
+                s
+            }
         })
     }
 
@@ -180,6 +193,21 @@ impl Ref {
             Body::JoinAdd(ds) | Body::UnordAdd(ds) => {
                 for d in ds {
                     out.push((*d, self.dep(p, *d)?));
+                }
+            }
+            Body::Edges(_, es) => {
+                for (g, d) in es {
+                    let on = match g {
+                        Some(g) => {
+                            let v = self.inputs[*g as usize]?;
+                            out.push((Dep::In(*g), v));
+                            v != 0
+                        }
+                        None => true,
+                    };
+                    if on {
+                        out.push((*d, self.dep(p, *d)?));
+                    }
                 }
             }
         }
